@@ -6,7 +6,7 @@ from ..scripted import enumerate_runs, BranchExplosion
 
 LEVEL = 'proof'
 META = dict(
-    text='Coq theorems: every library channel (bit/phase flip, (asymmetric) depolarize, amplitude, generalized amplitude and phase damping, reset) is trace preserving for all parameter values (sum K^dagger K = I as ring identities in the amplitude parameters), the Kraus evolution preserves the trace of every 2x2 matrix, measurement branches carry the whole mass, and the constant-noise-model moment transformer adds exactly one noise moment per non-virtual moment. On every run: Cirq\'s Kraus/mixture/superoperator/Choi descriptions are compared with the documented Kraus operators evaluated in Coq; the density-matrix simulator\'s final state (all measurement branches enumerated) and the state-vector simulator\'s trajectories (all Kraus branches enumerated through a scripted seed, weighted by the probability Cirq assigned) are compared with the reference ensemble; noise-model simulation is compared with the model of the circuit the noise model produces.',
+    text='Coq theorems: every library channel (bit/phase flip, (asymmetric) depolarize, amplitude, generalized amplitude and phase damping, reset) is trace preserving for all parameter values (sum K^dagger K = I as ring identities in the amplitude parameters), the Kraus evolution preserves the trace of every 2x2 matrix, measurement branches carry the whole mass, the density-operator reference semantics is the ensemble reference semantics averaged (for every operation list and register shape: the final density operator is the weighted sum of the outer products of the pure branches), and the constant-noise-model moment transformer adds exactly one noise moment per non-virtual moment. On every run: Cirq\'s Kraus/mixture/superoperator/Choi descriptions are compared with the documented Kraus operators evaluated in Coq; the density-matrix simulator\'s final state (all measurement branches enumerated) and the state-vector simulator\'s trajectories (all Kraus branches enumerated through a scripted seed, weighted by the probability Cirq assigned) are compared with the reference ensemble; noise-model simulation is compared with the model of the circuit the noise model produces.',
     note='Trusted: Coq kernel; docstring transcription of the Kraus operators (Gates/Channels.v); float instance (tolerance 2e-6); the scripted seed standing for numpy.random; numpy for the Choi/superoperator inversion oracles and the eigenvalue (positivity) check. Thermal/device-derived noise models are not generated.',
     technique='Rocq/Coq proof of trace preservation for the channel library + exact branch enumeration of both simulators compared with the reference ensemble by vm_compute',
 )
